@@ -2,7 +2,7 @@
 # tools/runmut2.sh <prop> <patch.diff> [demo.py] [tier] — like runmut.sh but on a scratch worktree (/tmp/evalrepo, CR_REPO),
 # so that /repo itself is never touched (background runs keep seeing the clean tree)
 P="$1"; D="$2"; DEMO="$3"; TIER="${4:-quick}"
-W=/tmp/evalrepo
+W="${EVALREPO:-/tmp/evalrepo}"
 cd $W || exit 2
 git checkout -q -- . ; git diff --quiet || { echo "worktree dirty"; exit 2; }
 git apply "$D" || { echo "patch does not apply"; exit 2; }
